@@ -104,7 +104,8 @@ theorem program_format_is_idempotent_given_statement_roundtrip (w : Option Nat)
 
 /-- DETERMINISM: `format_expr` without a width is `format_expr` at 80 columns; and
     `format_expr_impl` is a function of (width, indent, tree) only — in the model by
-    construction (`fmtImpl : Nat → Nat → Expr → String`), in the Rust code because it reads
+    construction (`fmtImpl : Nat → Nat → Expr → String`, the rendering of the total piece
+    layout `fmtImplP`), in the Rust code because it reads
     nothing else (no spans, no global state). -/
 theorem layout_is_deterministic (e : Expr) :
     formatExpr e none = formatExpr e (some DEFAULT_MAX_COLUMNS) ∧
